@@ -203,8 +203,13 @@ def selectKeys (sorted : Bool) (pi : List Nat → List Nat) (perSync : Nat) (inB
   let ks := if sorted then sortNat ks else ks
   (ks.take perSync).filterMap fun k => (m.get k).map fun v => (k, v)
 
+/-- the order in which `gossip_round` visits its routing table: the map's order `rho`, (current
+    code) sorted by target -/
+def routeOrder (sorted : Bool) (rho : List Nat → List Nat) (ts : List Nat) : List Nat :=
+  if sorted then sortNat (rho ts) else rho ts
+
 section
-/- the two hidden inputs: `sel` is `selectKeys sorted pi perSync`, `rord` orders the routing table -/
+/- the two hidden inputs: `sel` is `selectKeys sorted pi perSync`, `rord` is `routeOrder sorted rho` -/
 variable (sel : (Nat → Bool) → NMap RV → List Delta) (rord : List Nat → List Nat)
 
 /-- `run_anti_entropy_sync(a, b)` -/
@@ -260,16 +265,14 @@ def routeTargets (c : Cfg) (src : Nat) (ds : List Delta) : List Nat :=
   ds.foldl (fun acc d => ((c.owners d.1).filter (· != src)).foldl (fun acc t => if acc.contains t then acc else acc ++ [t]) acc) []
 
 /-- `gossip_round` -/
-def MN.gossipRound (sortsRoutes : Bool) (c : Cfg) (s : MN) : MN :=
+def MN.gossipRound (c : Cfg) (s : MN) : MN :=
   let drained := s.nodes.map (·.pending)
   let s := { s with nodes := s.nodes.map fun nd => { nd with pending := [] } }
   let s := (List.range c.n).foldl (fun s src =>
     let ds := drained.getD src []
     if ds.isEmpty then s
     else if c.selective then
-      let ts := rord (routeTargets c src ds)
-      let ts := if sortsRoutes then sortNat ts else ts
-      ts.foldl (fun s t => MN.send c s src t (ds.filter fun d => (c.owners d.1).contains t)) s
+      (rord (routeTargets c src ds)).foldl (fun s t => MN.send c s src t (ds.filter fun d => (c.owners d.1).contains t)) s
     else
       ((List.range c.n).filter (· != src)).foldl (fun s t => MN.send c s src t ds) s) s
   s.deliver
@@ -277,9 +280,9 @@ def MN.gossipRound (sortsRoutes : Bool) (c : Cfg) (s : MN) : MN :=
 def MN.advance (s : MN) (ms : Nat) : MN := { s with now := s.now + ms }
 
 /-- `converge(n)` -/
-def MN.converge (sortsRoutes : Bool) (c : Cfg) : Nat → MN → MN
+def MN.converge (c : Cfg) : Nat → MN → MN
   | 0, s => s
-  | k + 1, s => MN.converge sortsRoutes c k (MN.gossipRound rord sortsRoutes c (s.advance 10))
+  | k + 1, s => MN.converge c k (MN.gossipRound rord c (s.advance 10))
 
 end
 
@@ -371,12 +374,12 @@ structure Run where
   rounds : Nat := 0
 
 section
-variable (sel : (Nat → Bool) → NMap RV → List Delta) (rord : List Nat → List Nat) (sortsRoutes : Bool) (c : Cfg)
+variable (sel : (Nat → Bool) → NMap RV → List Delta) (rord : List Nat → List Nat) (c : Cfg)
 
 def untilConvLoop (keys : List Nat) : Nat → Nat → MN → MN × Bool × Nat
   | 0, _, s => (s, false, 0)
   | fuel + 1, round, s =>
-    let s := MN.gossipRound rord sortsRoutes c (s.advance 10)
+    let s := MN.gossipRound rord c (s.advance 10)
     if keys.all s.keyConverged then (s, true, round + 1) else untilConvLoop keys fuel (round + 1) s
 
 /-- one scripted step; `style` 0 = family `multi-node` (clocks after every step), 1 = the generated
@@ -397,7 +400,7 @@ def step (style : Nat) (r : Run) (k : Nat) (op : Op) : Run :=
     let (n, s) := r.s.execDel c node key
     emit r s s!"del n{node} {c.keyName key} -> Integer({n})"
   | .gossip adv =>
-    let s := MN.gossipRound rord sortsRoutes c (r.s.advance adv)
+    let s := MN.gossipRound rord c (r.s.advance adv)
     if style == 0 then emit r s s!"gossip queue={s.queue.length}" else emit r s "gossip" (s.inFlight c)
   | .partition a b =>
     emit r (if a != b then r.s.partition a b else r.s) s!"partition {a} {b}"
@@ -405,7 +408,7 @@ def step (style : Nat) (r : Run) (k : Nat) (op : Op) : Run :=
     emit r (if a != b then MN.heal sel c r.s a b else r.s) s!"heal {a} {b}"
   | .fullAe => emit r (MN.fullAe sel c r.s) "full-anti-entropy"
   | .sync a b => emit r (if a != b then MN.sync sel c r.s a b else r.s) s!"anti-entropy-sync {a} {b}"
-  | .converge n => emit r (MN.converge rord sortsRoutes c n r.s) "converge true"
+  | .converge n => emit r (MN.converge rord c n r.s) "converge true"
   | .burst node items =>
     -- `replies`: the harness folds the LENGTH of every reply's `{:?}` text: `SimpleString("OK")` = 18, `Integer(n)` = 10
     let (s, h) := items.foldl (fun (acc : MN × Nat) it =>
@@ -414,7 +417,7 @@ def step (style : Nat) (r : Run) (k : Nat) (op : Op) : Run :=
       | none => ((acc.1.execDel c node it.1).2, (acc.2 * 31 + 10) % 2 ^ 64)) (r.s, 0)
     emit r s s!"burst n{node} len={items.length} replies={h}"
   | .untilConv max keys =>
-    let (s, cv, rounds) := untilConvLoop rord sortsRoutes c keys max 0 r.s
+    let (s, cv, rounds) := untilConvLoop rord c keys max 0 r.s
     { r with s := s, conv := cv, rounds := rounds }
   | .dump =>
     let per := r.s.nodes.map fun nd =>
@@ -428,14 +431,14 @@ def healAll (s : MN) : MN :=
 
 /-- the closing lines: family `multi-node` -/
 def final0 (keys : List Nat) (s : MN) : List String :=
-  let s := MN.converge rord sortsRoutes c 30 (healAll sel c s)
+  let s := MN.converge rord c 30 (healAll sel c s)
   keys.map (fun key =>
     s!"final {c.keyName key} values=[{", ".intercalate (s.nodes.map fun nd => showOptStr (nd.value key))}] converged={showTF (s.keyConverged key)} lin={showTF (s.linearizable key)}")
   ++ [s!"result converge=true history={s.histLen} clocks={s.clocks}"]
 
 /-- `mn_final` of the generated scenarios -/
 def final1 (keys : List Nat) (s : MN) : List String :=
-  let s := MN.converge rord sortsRoutes c 20 (healAll sel c s)
+  let s := MN.converge rord c 20 (healAll sel c s)
   (((List.range keys.length).zip keys).filterMap fun (i, key) =>
     let per := s.nodes.map fun nd => match nd.keys.get key with
       | some rv => s!"{showOptStr rv.val}@{rv.time}.{rv.rid}{if rv.val.isNone then "T" else ""}"
@@ -452,9 +455,9 @@ def final2 (during after firstKey : Nat) (r : Run) : List String :=
 
 def runScript (style : Nat) (seed : Nat) (script : List Op) (finalKeys : List Nat) (during after : Nat := 0) : List String :=
   let s0 : MN := { rng := Rng.new seed.toUInt64, nodes := List.replicate c.n {} }
-  let r := ((List.range script.length).zip script).foldl (fun r (p : Nat × Op) => step sel rord sortsRoutes c style r (p.1 + 1) p.2) { s := s0 }
-  let fin := if style == 0 then final0 sel rord sortsRoutes c finalKeys r.s
-    else if style == 1 then final1 sel rord sortsRoutes c finalKeys r.s
+  let r := ((List.range script.length).zip script).foldl (fun r (p : Nat × Op) => step sel rord c style r (p.1 + 1) p.2) { s := s0 }
+  let fin := if style == 0 then final0 sel rord c finalKeys r.s
+    else if style == 1 then final1 sel rord c finalKeys r.s
     else final2 during after (finalKeys.headD 0) r
   r.out.reverse ++ fin
 
@@ -463,7 +466,7 @@ end
 /-- the run with the two iteration orders explicit -/
 def runWith (sortsSync sortsRoutes : Bool) (pi rho : List Nat → List Nat) (c : Cfg) (style seed : Nat) (script : List Op) (finalKeys : List Nat)
     (during after : Nat := 0) : List String :=
-  runScript (selectKeys sortsSync pi c.perSync) rho sortsRoutes c style seed script finalKeys during after
+  runScript (selectKeys sortsSync pi c.perSync) (routeOrder sortsRoutes rho) c style seed script finalKeys during after
 
 /-- `run_partition_test` as a script: partition, a write + a gossip round (5 ms) each, ten rounds
     (10 ms) while partitioned, heal (each heal runs an anti-entropy exchange), the writes after
